@@ -583,22 +583,6 @@ def generate_commit_graph(
             # Commit not found, skip
             continue
 
-    # The format can only name a parent by its position in this file, so the
-    # file has to be closed under "parent of": add the ancestors of the
-    # requested commits (as git does for --stdin-commits).
-    todo = list(commit_map)
-    while todo:
-        for parent_id in commit_map[todo.pop()].parents:
-            if parent_id in commit_map:
-                continue
-            try:
-                parent_obj = object_store[parent_id]
-            except KeyError:
-                continue
-            if isinstance(parent_obj, Commit):
-                commit_map[parent_id] = parent_obj
-                todo.append(parent_id)
-
     # Calculate generation numbers using topological sort
     generation_map: dict[bytes, int] = {}
 
